@@ -182,6 +182,7 @@ int main(void)
 	ASSUME(s1 < UINT64_MAX - 1 && s2 < UINT64_MAX - 1);
 
 	CTX c0;
+	c0.seq = ND_U64();   /* the caller's memory holds anything before init (explicit input so that a counterexample replays) */
 	ctx_init(&c0);
 	CHECK(c0.seq == 0, "init sets the sequence number to 0");
 
